@@ -807,6 +807,7 @@ func (c *Client) peekPacket() (head byte, err error) {
 	}
 
 	// slice payload form read buffer
+	c.peek = nil // progress is measured against the new packet only
 	for {
 		if c.bufr.Buffered() < size && c.PauseTimeout != 0 {
 			err := c.readConn.SetReadDeadline(time.Now().Add(c.PauseTimeout))
